@@ -307,7 +307,16 @@ def accessors(ctx, k):
         "transform_vectors_world": lambda o: o.transform_vectors(vec.expand(3, D), Axes.WORLD, Axes.CUBE), "numpy": lambda o: o.numpy(), "deepcopy": lambda o: pycopy.deepcopy(o), "eq": lambda o: o == o.clone(),
         "same_domain_as": lambda o: o.same_domain_as(o.resize([m + 1 for m in n])), "origin_get": lambda o: o.origin(), "extent": lambda o: o.extent(), "cube_extent": lambda o: o.cube_extent(),
     }
-    watch = [vec, Rt]
+    # maps that change nothing geometrically (same axes, same grid): the caller's points are still the caller's
+    pts = torch.tensor(rng.normal(size=(5, D)) * 0.37, dtype=torch.float32)
+    pts64 = pts.double()
+    calls.update({
+        "transform_points_same_axes_grid": lambda o: o.transform_points(pts, Axes.GRID, Axes.GRID), "transform_points_same_axes_cube": lambda o: o.transform_points(pts, Axes.CUBE, Axes.CUBE),
+        "transform_points_same_axes_corners": lambda o: o.transform_points(pts64, Axes.CUBE_CORNERS, Axes.CUBE_CORNERS), "transform_points_same_axes_to_clone": lambda o: o.transform_points(pts, Axes.CUBE, Axes.CUBE, to_grid=o.clone()),
+        "apply_transform_same_axes_decimals": lambda o: o.apply_transform(pts, Axes.WORLD, Axes.WORLD, decimals=2), "transform_vectors_same_axes": lambda o: o.transform_vectors(pts, Axes.CUBE, Axes.CUBE),
+        "transform_points_contiguous": lambda o: o.transform_points(pts, Axes.CUBE, Axes.WORLD), "cube_to_index": lambda o: o.cube_to_index(pts), "world_to_cube": lambda o: o.world_to_cube(pts64),
+    })
+    watch = [vec, Rt, pts, pts64]
     for name, call in calls.items():
         observe(ctx, f"Grid.{name}", g, call, watch=watch)
     # constructors and factory functions given caller-owned tensors
